@@ -192,3 +192,13 @@ def _random_countermodel(hyps, a, b, tries=60):
         except z3.Z3Exception:
             continue
     return None
+
+
+def bounded_tasks(pid, tier):
+    """Tasks of props/bounded_<pid>.py if that module exists (bounded stand-in drivers)."""
+    import importlib, sys
+    try:
+        m = importlib.import_module('props.bounded_' + pid)
+    except ModuleNotFoundError:
+        return []
+    return list(m.tasks(tier))
